@@ -1,0 +1,7 @@
+//go:build !verif
+
+package lexer
+
+type verifState struct{}
+
+func (l *Lexer) verifTick() {}
